@@ -85,7 +85,19 @@ def oracle_conservation(case, lines, runner=None):
                                  f'{sorted(held.elements())} (an item was lost, duplicated or invented)', 'signature': 'store-exactly-once'}]
     return []
 
+def oracle_fcfs(case, lines, runner=None):
+    """restates "put requests and get requests are each served first come first served (only FilterStore lets a later getter
+    overtake one whose filter matches nothing)": no request is granted while an older request of the same kind on the same
+    container/store is still waiting (observed right after every put/get call and after every kernel step)"""
+    for n in (runner.notes if runner is not None else []):
+        if n[0] == 'fcfs':
+            _, k, ri, kind, x, y, what, now, queue = n
+            return [{'what': f'{kind} request {x} ({what}) on the {k} (resource {ri}, capacity {case.res[ri][1]}) was granted at {now} while the '
+                             f'older {kind} request {y} was still waiting (queue {queue}): {kind}s are served first come first served',
+                     'signature': f'{"store" if k != "container" else "container"}-{kind}-fcfs'}]
+    return []
+
 def run(ctx):
-    return kprops.run_kernel(ctx, 'C07', SPEC, 1500, 40000, oracles=[oracle_bounds, oracle_heads, oracle_handout, oracle_conservation],
+    return kprops.run_kernel(ctx, 'C07', SPEC, 1500, 40000, oracles=[oracle_bounds, oracle_heads, oracle_handout, oracle_conservation, oracle_fcfs],
                              nontrivial=lambda c, lines: any(('pq' in l and not re.search(r'pq0 gq0', l)) for l in lines if l.startswith('S ')),
                              rule='seeded put/get/cancel histories of 2-8 processes on containers and the three stores; non-trivial = distinct history in which some request had to queue')
